@@ -38,6 +38,23 @@ def c11 (args : List String) : String :=
       | .fuel => "fuel"
       | .ok (t, pos, true) => s!"string {hexEncode (String.ofList t)} {pos}"
       | .ok (_, _, false) => s!"illegal {chars.size}"
+  | ["colref", h] =>
+    -- the text after `tb[`, lexed as the column of a structured reference
+    match hexDecode h with
+    | none => "bad-op"
+    | some s =>
+      match s.toList with
+      | [] => "other"
+      | c :: _ =>
+        if c = '[' || c = '#' || c = ']' then "other" else
+        let chars : Array Char := ⟨'t' :: 'b' :: '[' :: s.toList⟩
+        match consumeColumnReference chars 2 with
+        | .panic => "panic"
+        | .fuel => "fuel"
+        | .ok none => s!"illegal {chars.size}"
+        | .ok (some (raw, pos)) =>
+          let name := ((((String.ofList raw).replace "'[" "[").replace "']" "]").replace "'#" "#").replace "'@" "@" |>.replace "''" "'"
+          s!"colref {hexEncode name} {pos}"
   | _ => "bad-op"
 
 end Driver
